@@ -413,7 +413,7 @@ class Model:
             self.p.kill()
 
 
-def run_history(ctx, T, rmodel, hid, steps, rng, scratch, stats):
+def run_history(ctx, T, rmodel, hid, steps, rng, scratch, stats, resident=False):
     st = initial_state()
     ws = os.path.join(scratch, "h%d" % hid)
     wsc = os.path.join(scratch, "h%d-clean" % hid)
@@ -455,7 +455,15 @@ def run_history(ctx, T, rmodel, hid, steps, rng, scratch, stats):
         dlog = os.path.join(scratch, "h%d.deplog" % hid)
         if os.path.exists(dlog):
             os.remove(dlog)
-        rc, err = T.deploy(ws, deplog=dlog)
+        if resident:
+            # round 3: every incremental deployment of this history is made by ONE process that stays alive (a frontend),
+            # through the API; the clean reference is still a fresh process
+            if step == 0:
+                res_proc = T.resident(ws, deplog=dlog)
+            rc, err = res_proc.deploy()
+            stats["resident_deploys"] = stats.get("resident_deploys", 0) + 1
+        else:
+            rc, err = T.deploy(ws, deplog=dlog)
         real_log, cks = canon_real_log(dlog)
         # clean deployment of the same sources
         shutil.rmtree(wsc, ignore_errors=True)
@@ -466,7 +474,7 @@ def run_history(ctx, T, rmodel, hid, steps, rng, scratch, stats):
         lst, infos = T.info(wsc)
         stats["deploys"] += 1
         # --- the property's oracle (implementation vs implementation)
-        if rc != rcc:
+        if rc != rcc and not (resident and rc == 0):   # the API does not report whether the deployment succeeded
             fails.append(("exit-differs-from-clean", "incremental rc=%d clean rc=%d" % (rc, rcc)))
         for f in sorted(cdump):
             if idump.get(f) != cdump[f]:
@@ -541,6 +549,8 @@ def run_history(ctx, T, rmodel, hid, steps, rng, scratch, stats):
         if fails:
             break
     model.close()
+    if resident and steps:
+        res_proc.close()
     if not fails:
         shutil.rmtree(ws, ignore_errors=True)
         shutil.rmtree(wsc, ignore_errors=True)
@@ -591,7 +601,9 @@ def run(ctx):
     samples = []
     seen = set()
     for h in range(nh):
-        hist, fails, st = run_history(ctx, T, rmodel, h, steps, rng, scratch, stats)
+        hist, fails, st = run_history(ctx, T, rmodel, h, steps, rng, scratch, stats, resident=(h % 3 == 2))
+        if h % 3 == 2:
+            hist = ["(all incremental deployments by one resident process, through the API)"] + hist
         if h < 3:
             samples.append({"history": hist})
         impl_fail = [f for f in fails if f[0] != "decision-log"]
@@ -617,7 +629,7 @@ def run(ctx):
         "distinct_nontrivial": sum(1 for k, v in stats["decisions"].items() if v) + len(stats["edits"]),
         "rule": "one evaluation = one (edit, incremental deploy, clean deploy, model step); non-trivial = distinct edit kinds "
                 "exercised plus distinct (decision kind, rebuild|keep) outcomes observed in the real decision log, counted",
-        "edit_distribution": stats["edits"], "decision_distribution": stats["decisions"], "noop_steps": stats["noop_steps"],
+        "edit_distribution": stats["edits"], "decision_distribution": stats["decisions"], "noop_steps": stats["noop_steps"], "deployments_by_a_resident_process": stats.get("resident_deploys", 0),
         "dependency_sets_observed": sorted([k, list(v)] for k, v in stats["dep_sets"]),
         "restores_with_earlier_mtime": stats["nonmonotonic"], "deploys_with_shadowing_user_copy": stats["shadowed_files"],
         "decision_log_lines_compared": stats["log_lines"], "samples": samples, "exhaustive": False,
